@@ -178,7 +178,7 @@ def shaving_consistency_algorithm(
         )
         if dom_idx == -1:  # all variables after start_idx are instantiated
             break
-        if stacks_top[0] + 1 >= len(shr_domains_stack):  # no room left for the temporary choice point of a probe
+        if stacks_top[0] >= len(shr_domains_stack) - 1:  # no room left for the temporary choice point of a probe
             break
         statistics[STATS_IDX_ALG_SHAVING_NB] += 1
         has_shaved = shave_bound(
